@@ -81,6 +81,10 @@ def group_join_(
                 for right_value in right_map.values():
                     subject.on_next(right_value)
 
+                if group.is_disposed:
+                    # unsubscribed from inside on_next
+                    return
+
                 md = SingleAssignmentDisposable()
                 group.add(md)
 
